@@ -332,4 +332,9 @@ def _pytensor_get_mean_std(dist, in_unit, out_unit):
         mu = pars[0].eval()
         std = pars[1].eval()
 
+    # pytensor stores float32-representable constants as float32: convert units in
+    # double precision, otherwise e.g. 25000 m/s becomes 25.000002 km/s
+    mu = np.asarray(mu, dtype=np.float64)
+    std = np.asarray(std, dtype=np.float64)
+
     return (mu * in_unit).to_value(out_unit), (std * in_unit).to_value(out_unit)
